@@ -52,6 +52,14 @@ StructuralOffsets(fn, b, typ) ==
     [] fn = "ReadLeaseSet" -> (LET r == RefLeaseSet(b) IN IF r.ok THEN << r.encOff, r.spkOff, r.leaseOff - 1, r.leaseOff, r.leaseOff + HashLen, r.leaseOff + HashLen + 4, BlockLen + 2, BlockLen + 4 >> ELSE << >>)
     [] fn = "ReadEncryptedLeaseSet" -> (LET r == RefEncryptedLeaseSet(b) IN IF r.ok THEN << 0, 1, r.hdrOff, r.hdrOff + 4, r.hdrOff + 5, r.hdrOff + 6, r.hdrOff + 7, r.lenOff, r.lenOff + 1, r.lenOff + 2 >> ELSE << >>)
     [] OTHER -> << 0, 3, 4, 5 >>
+\* adjacent option pairs that an adversary can exchange as whole pairs (the mapping stays well formed, the layout stays the same):
+\* sequence of [off, la, lb] - pair 1 occupies [off, off+la), pair 2 the next lb bytes
+PairSwaps(fn, b, typ) ==
+  LET Sw(optOff, pairs) == IF Len(pairs) >= 2 THEN << [off |-> optOff + 2, la |-> Len(SerPair(pairs[1])), lb |-> Len(SerPair(pairs[2]))] >> ELSE << >> IN
+  CASE fn = "ReadRouterInfo" -> (LET r == RefRouterInfo(b) IN IF r.ok THEN Sw(r.optOff, r.optPairs) ELSE << >>)
+    [] fn = "ReadLeaseSet2" -> (LET r == RefLeaseSet2(b) IN IF r.ok THEN Sw(r.optOff, r.optPairs) ELSE << >>)
+    [] fn = "ReadMetaLeaseSet" -> (LET r == RefMetaLeaseSet(b) IN IF r.ok THEN Sw(r.optOff, r.optPairs) ELSE << >>)
+    [] OTHER -> << >>
 StoreTypePrefix(fn) == CASE fn = "ReadLeaseSet2" -> << 3 >> [] fn = "ReadMetaLeaseSet" -> << 7 >> [] fn = "ReadEncryptedLeaseSet" -> << 5 >> [] OTHER -> << >>
 
 JSignedProbe(e) ==
